@@ -438,13 +438,15 @@ class BaseCollection(BaseDisplayRepr):
             recursive=False,
             typechecks=True,
         )
-        self_objects = check_format_input_obj(
-            self,
-            allow="sensors+sources+collections",
-            recursive=recursive,
-        )
         for child in remove_objects:
-            if child in self_objects:
+            # look up the current state: a previous removal may have taken
+            # the child along with its collection
+            self_objects = check_format_input_obj(
+                self,
+                allow="sensors+sources+collections",
+                recursive=recursive,
+            )
+            if any(child is obj for obj in self_objects):
                 rec_obj_remover(self, child)
                 child._parent = None
             else:
